@@ -1574,10 +1574,32 @@ func ruleCallbacks(c *core.Ctx, a *epAnchors, lc *core.LockCache, rule string) {
 	// made under it; conditional = only for a handler whose own filter has just
 	// answered keep=false (dispatch)
 	nUnder, allOnNotKeep := 0, true
+	// a private helper (visit(i, h, msg)) runs under the mutex when one of its
+	// callers calls it there
+	var heldOnEntry func(fn *ssa.Function, depth int) bool
+	heldOnEntry = func(fn *ssa.Function, depth int) bool {
+		if depth > 3 || !isPrivateHelper(c, fn) {
+			return false
+		}
+		all, _ := c.CallSites()
+		for _, cs := range all[fn] {
+			in, ok := cs.(ssa.Instruction)
+			if !ok || cs.Parent() == nil {
+				continue
+			}
+			if _, isGo := cs.(*ssa.Go); isGo {
+				continue
+			}
+			if lc.Get(cs.Parent()).MayHeld(in)[a.class] || heldOnEntry(cs.Parent(), depth+1) {
+				return true
+			}
+		}
+		return false
+	}
 	for _, fn := range srcFuncsOfPkg(c, "bus/net") {
 		for _, call := range core.Calls(fn) {
 			cv, plain := call.(*ssa.Call)
-			if !plain || !core.IsCallTo(call, a.hCloseWith) || !lc.Get(fn).MayHeld(cv)[a.class] {
+			if !plain || !core.IsCallTo(call, a.hCloseWith) || !(lc.Get(fn).MayHeld(cv)[a.class] || heldOnEntry(fn, 0)) {
 				continue
 			}
 			nUnder++
